@@ -434,7 +434,9 @@ def run_impl(case):
     try:
         addl = bool(decl.get("addl", True))
         ku = opts.get("keepUndefined", True)
-        res["opts_actual"] = {"keepUndefined": bool(ku if (ku is not None or addl) else True),
+        # the wrapper's adjustment of keep_undefined=None: kept as it is (falsy) for an open class; for a closed class
+        # it is `not ignore_invalid_additional_properties_in_deserialization` (since /repo 005d815; before: True)
+        res["opts_actual"] = {"keepUndefined": bool(ku if (ku is not None or addl) else not opts.get("ignoreInvalidAddl", True)),
                               "ignoreInvalidAddl": opts.get("ignoreInvalidAddl", True)}
         if case["mode"] == "roundtrip":
             try:
